@@ -2,8 +2,14 @@
 (M) MC_DataX: the reference format is lossless/canonical/self-delimiting for all small programs.
     MC_DataXKeep: results once read are values (never changed by later reads or by later writes to the output the
     reader was opened over), the reader's view is apart from late writes, the output accounts for all of its bytes.
+    MC_DataXNet: the reader over a connection -- however the transport cuts the bytes into pieces, the elements are
+    assembled as written and exactly their bytes leave the transport; the design that restarts its window after a short
+    piece is refuted.
 (A) Trace_DataX: real DataOutputX/DataInputX calls judged byte for byte against the reference format; every result
-    that is a reference (slice, string, array) is kept by the harness and looked at again after later calls."""
+    that is a reference (slice, string, array) is kept by the harness and looked at again after later calls; the same
+    kind of programs read back through NewDataInputNet over a connection of the harness that cuts the bytes (all at once,
+    per element, per byte, inside every element, at the edges of every element, random): every Read call of the reader on
+    the connection and the bytes handed over are judged (Recv, R.taken)."""
 from concurrent.futures import ThreadPoolExecutor
 
 
@@ -21,6 +27,8 @@ def body(run):
 
     def design_keep():
         run.mc("MC_DataXKeep", cfg="MC_DataXKeep_thorough.cfg" if th else "MC_DataXKeep.cfg", workers=run.pick(4, 16), heap=heap)
+        run.mc("MC_DataXNet", cfg="MC_DataXNet_restart.cfg", expect_violation="Assembled", workers=2, heap=heap)
+        run.mc("MC_DataXNet", cfg="MC_DataXNet_thorough.cfg" if th else "MC_DataXNet.cfg", workers=run.pick(4, 16), heap=heap)
 
     pool = ThreadPoolExecutor(max_workers=2)
     mcs = [pool.submit(design), pool.submit(design_keep)]
@@ -36,6 +44,8 @@ def body(run):
         run.selftest(out, meta, gen="prog")
         # a kept result that changed must be rejected (the Again observation is judged, not decoration)
         run.selftest(out, meta, gen="keep", field="kept", removed=False)
+        # over a connection: a byte more handed over than the element has, or a Read call not accounted for, is rejected
+        run.selftest(out, meta, gen="net", field="taken", remove_match={"ev": "Recv"})
     finally:
         pool.shutdown(wait=True)
     for f in mcs:
@@ -44,5 +54,6 @@ def body(run):
         "values are projected to byte tuples by the harness with encoding/binary and math.Float*bits only (never golib)",
         "TLC judges every recorded call; the 2^24/2^32 pattern sweeps are sampled boundary-biased, not enumerated, in this tier",
         "a kept result is re-projected from the very object the read returned (slice, string, array), never from a copy; the copy logged with the read itself is taken before any further call",
+        "the connection of the net histories is the harness's own net.Conn (synchronous; segments kept across Read calls as TCP and net.Pipe do; never 0 bytes without an error, never data together with an error): what it delivered is logged and compared with the stream (Recv.data)",
         "lengths that need the third byte of a 32-bit length cell (>= 2^24 bytes, blob / int-length bytes) are not driven: one such value is beyond what a trace line can carry",
     ]
